@@ -382,7 +382,7 @@ def check_subs(src: str, prop: str = "C05", with_function: bool = True) -> Tuple
             got_graph = PrinterCallGraph(teal)._construct_call_graph()  # pylint: disable=protected-access
         if {k: set(v) for k, v in got_graph.items()} != exp_graph:
             add("call-graph", f"call graph {dict((k, sorted(v)) for k, v in got_graph.items())}, expected callers {dict((k, sorted(v)) for k, v in exp_graph.items())}")
-    except ImportError:
+    except (ImportError, AttributeError):
         pass
     # (6) the function-level tables
     if with_function and n <= 400:
@@ -736,7 +736,7 @@ def check_paths(src: str, prop: str = "C02", unroll: int = 2, detectors: Optiona
                         len(jb) == len(b.instructions) and all(t == f"{ins.line}: {ins}" for t, ins in zip(jb, b.instructions)) for jb, b in zip(jp["blocks"], path))
                     if jp["short"] != short or not blocks_ok:
                         findings.append(Finding(prop, "render", src, f"{det}: JSON rendering of path {short} is {jp['short']!r} / block lists {'match' if blocks_ok else 'differ'}", None, lines, None, det, None, True))
-                if out and type(out[0])._short_notation(path) != short:  # pylint: disable=protected-access
+                if out and hasattr(type(out[0]), "_short_notation") and type(out[0])._short_notation(path) != short:  # pylint: disable=protected-access
                     findings.append(Finding(prop, "render:short", src, f"{det}: short notation differs for {short}", None, lines, None, det, None, True))
     except ts.Unsupported as e:
         st.skipped = f"unsupported opcode {e}"
